@@ -699,7 +699,7 @@ func runProp(t *testing.T, d propDef) {
 		}
 	}
 
-	if d.gen == nil {
+	if d.gen == nil || t.Failed() {
 		return
 	}
 
